@@ -333,7 +333,7 @@ def gen_case(rng: random.Random, tier: str) -> dict:
         r = rng.random()
         if r < 0.06:
             return rng.choice([n for n in _pdfs if n.startswith("var/aes")] or plain)
-        return rng.choice(plain) if r < 0.72 else rng.choice(_pool)
+        return rng.choice(plain) if r < 0.5 else rng.choice(_pool)
     aes256 = [n for n in _pdfs if n.startswith("var/aes256")]
     if mode == "threads" and len(aes256) >= 2 and rng.random() < 0.08:
         # two threads decrypting with different keys (shared key-schedule cache)
@@ -348,7 +348,7 @@ def gen_case(rng: random.Random, tier: str) -> dict:
                 "line_granularity": False, "inject": None, "schedule": None, "sec_switch": sorted(rng.sample(range(0, 70), nsw))}
         return case
     fam = None
-    if mode in ("threads", "sequential") and _families and rng.random() < 0.4:
+    if mode in ("threads", "sequential") and _families and rng.random() < 0.5:
         # every task works on documents of one format family (they share that format's module-level state), near-duplicates together
         fam = rng.choice(sorted(_families))
         members = _families[fam]
